@@ -139,15 +139,17 @@ func cmdC16(r *RNG, n int, e *Emitter, args []string) {
 		if len(out) < len(p0) {
 			e.Nontrivial(sb.String())
 		}
-		// the float version on the same points scaled by 1/8 (exact in binary)
+		// the float version on the same points scaled by 2^-k (exact in binary), down to micro scale
 		if r.Intn(3) == 0 {
+			k := []int{3, 3, 3, 10, 20, 30, 40}[r.Intn(7)]
+			sc := math.Ldexp(1, -k)
 			pd := make(clip.PathD, len(p0))
 			for j, q := range p0 {
-				pd[j] = clip.PointD{X: float64(q.X) / 8, Y: float64(q.Y) / 8}
+				pd[j] = clip.PointD{X: float64(q.X) * sc, Y: float64(q.Y) * sc}
 			}
-			od := clip.SimplifyPathD(pd, eps/8, closed)
+			od := clip.SimplifyPathD(pd, eps*sc, closed)
 			var sd strings.Builder
-			fmt.Fprintf(&sd, "simpD %s %d %d", ratOfFloat(eps/8), b2i(closed), len(pd))
+			fmt.Fprintf(&sd, "simpD %s %d %d", ratOfFloat(eps*sc), b2i(closed), len(pd))
 			for _, q := range pd {
 				fmt.Fprintf(&sd, " %s %s", ratOfFloat(q.X), ratOfFloat(q.Y))
 			}
@@ -155,7 +157,8 @@ func cmdC16(r *RNG, n int, e *Emitter, args []string) {
 			for j, q := range od {
 				god[j] = [2]string{ratOfFloat(q.X), ratOfFloat(q.Y)}
 			}
-			e.Case(fmt.Sprintf("c16-%dD", i), sd.String(), map[string]any{"godD": god, "eps": eps / 8, "closed": closed, "n": len(pd), "path8": pathJSON(p0)})
+			e.Count(fmt.Sprintf("D-scale=2^-%d", k))
+			e.Case(fmt.Sprintf("c16-%dD", i), sd.String(), map[string]any{"godD": god, "eps": eps * sc, "closed": closed, "n": len(pd), "path8": pathJSON(p0), "dscale": k})
 		}
 	}
 }
